@@ -206,6 +206,9 @@ func traitRunner(f *hx.Flags, w *world, rule string) (*hx.Runner, *gen) {
 	m := &impl{w: w}
 	r := hx.NewRunner(f, "h-genum", m, rule)
 	r.KeyOf = keyOfGeneric(f.Prop)
+	// known findings are reported from the unshrunk case: shrinking them costs a generator run and
+	// a go build per step, on every run
+	r.LoadKnownKeys(filepath.Join(w.harnessDir, "..", "known_findings.json"))
 	r.ShrinkBudget, r.ShrinkMax = 6, 2
 	r.ShrinkReject = func(req, im, mo string) bool {
 		return strings.HasPrefix(req, "gn gen") || im == "no-gen" || im == "no-type" || im == "bad-op" || im == "probe-dead" || im == "no-trait" || im == "not-parsable"
@@ -262,7 +265,7 @@ func runC12(f *hx.Flags, w *world) int {
 		return 0
 	}
 	r.RunCorpus()
-	nBatches, batch := 2, 25
+	nBatches, batch := 2, 18
 	if g.thorough {
 		nBatches, batch = 15, 40
 	}
